@@ -37,6 +37,7 @@ type gramStats struct {
 	Findings  map[string]int `json:"findings"`
 	Kinds     map[string]int `json:"kinds"`  // node kinds reached in accepted trees
 	Starts    map[string]int `json:"starts"` // sentences per start symbol
+	Fields    map[string]int `json:"fields"` // "Type.Field" set (non-zero) / "Type.Field=value" for enum and bool fields, in accepted trees
 }
 
 type gramRun struct {
@@ -70,6 +71,55 @@ func (g *gramRun) find(prop, kind string, s *sentence, pf, text, detail string) 
 }
 
 func (g *gramRun) eval(p string) { g.stats.Evals[p]++ }
+
+// fieldCover records which fields of a node carry a non-zero value and which values the enum / bool fields take
+// (coverage of G over the AST's optional parts; reported in the evidence, decides nothing).
+func (g *gramRun) fieldCover(n ast.Node) {
+	v := reflect.ValueOf(n)
+	if v.Kind() != reflect.Ptr || v.IsNil() {
+		return
+	}
+	v = v.Elem()
+	if v.Kind() != reflect.Struct {
+		return
+	}
+	t := v.Type()
+	for i := 0; i < t.NumField(); i++ {
+		f := v.Field(i)
+		name := t.Name() + "." + t.Field(i).Name
+		switch f.Kind() {
+		case reflect.Bool:
+			g.stats.Fields[fmt.Sprintf("%s=%v", name, f.Bool())]++
+		case reflect.String:
+			if f.Type().PkgPath() != "" { // named string type: an enum
+				g.stats.Fields[name+"="+f.String()]++
+			} else if f.String() != "" {
+				g.stats.Fields[name]++
+			}
+		case reflect.Ptr, reflect.Interface:
+			if !f.IsNil() {
+				g.stats.Fields[name]++
+			}
+		case reflect.Slice:
+			switch {
+			case f.Len() == 0:
+			case f.Len() == 1:
+				g.stats.Fields[name]++
+			default:
+				g.stats.Fields[name]++
+				g.stats.Fields[name+"[2+]"]++
+			}
+		case reflect.Int:
+			if f.Type().Name() == "Pos" {
+				if f.Int() >= 0 {
+					g.stats.Fields[name]++
+				} else {
+					g.stats.Fields[name+"=invalid"]++
+				}
+			}
+		}
+	}
+}
 
 // exprPosition tells whether the field holding c is an expression / type / query / statement position.
 var (
@@ -159,7 +209,7 @@ func (g *gramRun) sentence(s *sentence) {
 		}
 		return
 	}
-	eachNode(n0, 0, func(n ast.Node, _ int) { g.stats.Kinds[kindOf(n)]++ })
+	eachNode(n0, 0, func(n ast.Node, _ int) { g.stats.Kinds[kindOf(n)]++; g.fieldCover(n) })
 	if general != nil && g.want("C08") {
 		n1, err1, pan1 := safeCall(*general, text0)
 		switch {
@@ -549,7 +599,7 @@ func init() {
 		dumpStruct := fs.Bool("struct", false, "with -dump: write {dir, toks, nodes} (token spellings as bytes, node = [first, last, parent]) for TreeFaults.tla")
 		raw := fs.String("raw", "", "inputs {dir,buf} without tapes: the real-vs-real clauses (C01 C04 C05 C06 C17 C19) on whatever is accepted")
 		fs.Parse(args)
-		g := &gramRun{props: map[string]bool{}, stats: gramStats{Evals: map[string]int{}, Findings: map[string]int{}, Kinds: map[string]int{}, Starts: map[string]int{}}}
+		g := &gramRun{props: map[string]bool{}, stats: gramStats{Evals: map[string]int{}, Findings: map[string]int{}, Kinds: map[string]int{}, Starts: map[string]int{}, Fields: map[string]int{}}}
 		for _, p := range strings.Split(*props, ",") {
 			g.props[strings.TrimSpace(p)] = true
 		}
